@@ -31,6 +31,11 @@ def withEps (n : Nat) (f : B → List B → List B) : Handler := numeric fun xs 
 def pair (p : Vec3 B × B) : List B := p.1.toList ++ [p.2]
 
 def opsLie : List (String × Handler) := [
+  -- identity constants of the model (`<type>.one <eps>`): what `identity_*` / `identity_like` must return
+  ("SO3.one", withEps 0 fun _ _ => (SO3one : Quat B).toList),
+  ("SE3.one", withEps 0 fun _ _ => (SE3one : SE3 B).toList),
+  ("RxSO3.one", withEps 0 fun _ _ => (RxSO3one : RxSO3 B).toList),
+  ("Sim3.one", withEps 0 fun _ _ => (Sim3one : Sim3 B).toList),
   -- Exp
   ("so3.Exp", withEps 3 fun e l => (so3Exp e (v3 l)).toList),
   ("se3.Exp", withEps 6 fun e l => (se3Exp e (tose3 l)).toList),
